@@ -62,9 +62,10 @@ def execute( via, params=None, pass_thru=None, details=False ):
     Yields tuples of each of the supplied params, each with their polled values/details.
 
     """
+    params			= list( params or PARAMS ) # iterated twice; may be a generator
     with contextlib.closing( ( via.read_details if details else via.read )(
-            via.parameter_substitution( params or PARAMS, pass_thru=pass_thru ))) as reader:
-        for p,v in zip( params or PARAMS, reader ): # "lazy" zip
+            via.parameter_substitution( params, pass_thru=pass_thru ))) as reader:
+        for p,v in zip( params, reader ): # "lazy" zip
             yield p,v
 
 
